@@ -83,7 +83,7 @@ func fieldNode(fa *ssa.FieldAddr) string {
 	if nt, ok := st.(*types.Named); ok {
 		n = nt.Obj().Name()
 	}
-	return "f:" + n + "." + st.Underlying().(*types.Struct).Field(fa.Field).Name()
+	return "f:" + n + "." + fieldName(st, fa.Field)
 }
 
 func newListFlow(c *Ctx) *listFlow {
